@@ -75,7 +75,7 @@ pub fn tape_parts_filtered() -> Vec<Box<dyn Part>> {
 pub fn run_campaign(prop: &'static str, target: &str, runs: u64, seed: u64) -> Result<PartStats, String> {
     let root = crate::verif_root();
     let crate_dir = format!("{}/engine/vf-core", root);
-    let build = Command::new("cargo").args(["+nightly", "fuzz", "build"]).current_dir(&crate_dir).env("CARGO_NET_OFFLINE", "true").output().map_err(|e| format!("cannot run cargo fuzz: {}", e))?;
+    let build = Command::new("cargo").args(["+nightly", "fuzz", "build", "-O", "-s", "none"]).current_dir(&crate_dir).env("CARGO_NET_OFFLINE", "true").output().map_err(|e| format!("cannot run cargo fuzz: {}", e))?;
     if !build.status.success() {
         return Err(format!("cargo fuzz build failed: {}", String::from_utf8_lossy(&build.stderr).chars().rev().take(600).collect::<String>().chars().rev().collect::<String>()));
     }
@@ -105,24 +105,62 @@ pub fn run_campaign(prop: &'static str, target: &str, runs: u64, seed: u64) -> R
         let out = Command::new("python3").arg(format!("{}/tools_extract_derives.py", root)).arg(&corpus).output().map_err(|e| e.to_string())?;
         seeds = String::from_utf8_lossy(&out.stdout).split_whitespace().next().and_then(|x| x.parse().ok()).unwrap_or(0);
     }
-    let out = Command::new("cargo")
-        .args(["+nightly", "fuzz", "run", target, &corpus, "--"])
-        .arg(format!("-runs={}", runs))
-        .arg(format!("-seed={}", if seed == 0 { 1 } else { seed % 4_000_000_000 }))
-        .args(["-len_control=0", "-max_len=1536", "-print_final_stats=1", "-timeout=30", "-rss_limit_mb=4096"])
-        .arg(format!("-artifact_prefix={}", arts))
-        .current_dir(&crate_dir)
-        .env("CARGO_NET_OFFLINE", "true")
-        .env("VF_FUZZ_PROP", prop)
-        .output()
-        .map_err(|e| format!("cannot run cargo fuzz: {}", e))?;
-    let log = String::from_utf8_lossy(&out.stderr).to_string();
-    let stat = |key: &str| -> u64 { log.lines().filter_map(|l| l.strip_prefix(key)).filter_map(|v| v.trim().parse::<u64>().ok()).last().unwrap_or(0) };
+    // o2o has no unsafe code: no sanitizer, optimised build (about 5x the executions per second of the default ASan build).
+    // The runs are split over WORKERS independent libFuzzer processes (own copy of the seed corpus, own seed), merged afterwards.
+    const WORKERS: u64 = 8;
+    let bin = format!("{}/engine/target/x86_64-unknown-linux-gnu/release/{}", root, target);
+    let per_worker = (runs + WORKERS - 1) / WORKERS;
+    let mut logs: Vec<(bool, String)> = vec![];
+    std::thread::scope(|sc| {
+        let mut hs = vec![];
+        for w in 0..WORKERS {
+            let wcorpus = format!("{}/corpus-w{}", dir, w);
+            let (corpus, arts, bin, crate_dir) = (&corpus, &arts, &bin, &crate_dir);
+            hs.push(sc.spawn(move || -> (bool, String) {
+                let _ = std::fs::create_dir_all(&wcorpus);
+                if let Ok(rd) = std::fs::read_dir(corpus) {
+                    for e in rd.filter_map(|e| e.ok()) {
+                        let _ = std::fs::copy(e.path(), format!("{}/{}", wcorpus, e.file_name().to_string_lossy()));
+                    }
+                }
+                let out = Command::new(bin)
+                    .arg(&wcorpus)
+                    .arg(format!("-runs={}", per_worker))
+                    .arg(format!("-seed={}", (seed % 400_000_000) * WORKERS + w + 1))
+                    .args(["-len_control=0", "-max_len=1536", "-print_final_stats=1", "-timeout=30", "-rss_limit_mb=4096"])
+                    .arg(format!("-artifact_prefix={}", arts))
+                    .current_dir(crate_dir)
+                    .env("VF_FUZZ_PROP", prop)
+                    .output();
+                match out {
+                    Ok(o) => (o.status.success(), String::from_utf8_lossy(&o.stderr).to_string()),
+                    Err(e) => (false, format!("cannot run the fuzz target: {}", e)),
+                }
+            }));
+        }
+        for h in hs {
+            logs.push(h.join().unwrap_or((false, "worker thread panicked".into())));
+        }
+    });
+    // merge the workers' corpora into the campaign corpus (by file name = content hash)
+    for w in 0..WORKERS {
+        if let Ok(rd) = std::fs::read_dir(format!("{}/corpus-w{}", dir, w)) {
+            for e in rd.filter_map(|e| e.ok()) {
+                let dst = format!("{}/{}", corpus, e.file_name().to_string_lossy());
+                if !std::path::Path::new(&dst).exists() {
+                    let _ = std::fs::copy(e.path(), dst);
+                }
+            }
+        }
+    }
+    let all_ok = logs.iter().all(|l| l.0);
+    let log: String = logs.iter().map(|l| l.1.clone()).collect::<Vec<_>>().join("\n");
+    let stat = |key: &str| -> u64 { logs.iter().map(|l| l.1.lines().filter_map(|x| x.strip_prefix(key)).filter_map(|v| v.trim().parse::<u64>().ok()).last().unwrap_or(0)).sum() };
     let executed = stat("stat::number_of_executed_units:");
     let corpus_units = std::fs::read_dir(&corpus).map(|d| d.count()).unwrap_or(0) as u64;
     let mut st = PartStats { name: format!("libfuzzer-{}", target), ..Default::default() };
     st.rule = format!(
-        "Coverage-guided libFuzzer campaign (cargo +nightly fuzz run {}, -runs={}, -seed from VERIF_SEED, -len_control=0, fresh corpus seeded with {} inputs: {}); the oracle is inside the target (same generators / oracles as the proptest parts of this property; open known findings tolerated). evaluations = executed units; distinct_nontrivial = units in the final corpus (inputs that reached new coverage, beyond the seeds).",
+        "Coverage-guided libFuzzer campaign (target {} built with cargo +nightly fuzz build -O -s none; {} runs split over 8 parallel libFuzzer processes with seeds derived from VERIF_SEED, -len_control=0, fresh corpus seeded with {} inputs: {}); the oracle is inside the target (same generators / oracles as the proptest parts of this property; open known findings tolerated). evaluations = executed units; distinct_nontrivial = units in the final corpus (inputs that reached new coverage, beyond the seeds).",
         target,
         runs,
         seeds,
@@ -134,7 +172,7 @@ pub fn run_campaign(prop: &'static str, target: &str, runs: u64, seed: u64) -> R
     st.extra.insert("seeds".into(), json!(seeds));
     st.extra.insert("final_corpus_units".into(), json!(corpus_units));
     st.extra.insert("new_units_added".into(), json!(stat("stat::new_units_added:")));
-    st.extra.insert("peak_rss_mb".into(), json!(stat("stat::peak_rss_mb:")));
+    st.extra.insert("workers".into(), json!(WORKERS));
     // samples: decode a few corpus units
     let mut sampled = 0;
     if let Ok(rd) = std::fs::read_dir(&corpus) {
@@ -159,7 +197,7 @@ pub fn run_campaign(prop: &'static str, target: &str, runs: u64, seed: u64) -> R
             }
         }
     }
-    if !out.status.success() {
+    if !all_ok {
         // crash artifacts -> replay files
         let mut found = false;
         if let Ok(rd) = std::fs::read_dir(&arts) {
